@@ -72,9 +72,30 @@ def csv_cases(tier):
             yield {'kind': 'csv', 'a': a, 'b': b, 'opt': ['auto', 'on']}
 
 
+def whitespace_cases(tier):
+    """Strings that differ only in surrounding / inner blanks, or are blank, loaded from the formats whose loaders mark
+    strings as unquoted (YAML, plist, CSV) as well as from JSON: string values, list items and mapping keys."""
+    strs = ('x', ' x', 'x ', ' ', '', 'x y', 'x  y') if tier == 'quick' else ('x', ' x', 'x ', ' ', '', 'x y', 'x  y', '\tx', 'x\n', '  ')
+    for kind in ('yaml', 'plist', 'json'):
+        for shape in ('value', 'item', 'key', 'nested'):
+            def doc(t):
+                return {'k': t} if shape == 'value' else [t, 'z'] if shape == 'item' else {t: 1} if shape == 'key' else {'o': [{'i': t}]}
+            for a in strs:
+                for b in strs:
+                    if kind == 'plist' and shape == 'key' and False:
+                        continue
+                    for opt in (['auto', 'on'], ['none', 'off']):
+                        yield {'kind': kind, 'a': doc(a), 'b': doc(b), 'opt': opt}
+    for a in strs:
+        for b in strs:
+            if not a or not b:
+                continue        # a row holding one empty cell is a blank row for the CSV loader (excluded above)
+            yield {'kind': 'csv', 'a': [['h', 'g'], [a, 'z']], 'b': [['h', 'g'], [b, 'z']], 'opt': ['auto', 'on']}
+
+
 def all_cases(tier):
     idx = 0
-    for gen in (json_cases(tier), xml_cases(tier), csv_cases(tier)):
+    for gen in (json_cases(tier), xml_cases(tier), csv_cases(tier), whitespace_cases(tier)):
         for c in gen:
             yield idx, c
             idx += 1
@@ -157,8 +178,8 @@ def evaluate(case, with_cli=True):
                 kindk = 'zero_cost_for_unequal' if not eq else 'positive_cost_for_equal'
                 return {'key': f'{kindk} @ {site} : {tag}',
                         'detail': f'A={case["a"]!r} B={case["b"]!r} cost={cost} any_nonzero_edit={had} equal={eq}'}, None
-            for color, yaml in (((False, False), (True, False), (False, True)) if kind == 'json' else
-                                ((False, False), (True, False)) if kind != 'csv' else ()):
+            for color, yaml in (((False, False), (True, False), (False, True)) if kind in ('json', 'yaml') else
+                                ((False, False), (True, False)) if kind == 'xml' else ()):
                 text = render(d, color, yaml)
                 marks = cli.has_marks(text, color)
                 if marks == eq:
@@ -166,9 +187,17 @@ def evaluate(case, with_cli=True):
                                    f'color={color}{" as YAML" if yaml else ""} : {tag}',
                             'detail': f'A={case["a"]!r} B={case["b"]!r} rendered {text!r}'}, None
             rc = None
-            if with_cli and kind in ('json', 'xml', 'csv'):
+            if with_cli and kind in ('json', 'xml', 'csv', 'yaml', 'plist'):
                 dirp = pairspace.tmpdir()
-                if kind == 'json':
+                if kind == 'yaml':
+                    import yaml
+                    fa = cli.write_file(dirp, 'a.yml', yaml.safe_dump(case['a'], allow_unicode=True))
+                    fb = cli.write_file(dirp, 'b.yml', yaml.safe_dump(case['b'], allow_unicode=True))
+                elif kind == 'plist':
+                    import plistlib
+                    fa = cli.write_file(dirp, 'a.plist', plistlib.dumps(case['a']))
+                    fb = cli.write_file(dirp, 'b.plist', plistlib.dumps(case['b']))
+                elif kind == 'json':
                     fa = cli.write_file(dirp, 'a.json', json.dumps(case['a']))
                     fb = cli.write_file(dirp, 'b.json', json.dumps(case['b']))
                 elif kind == 'xml':
